@@ -429,6 +429,13 @@ def build(spec, world, mode, keep=None):
         return TreeNode(world, spec['id'],
                         [build(x, world, mode, keep)
                          for x in spec.get('children', [])])
+    if t == 'treestate':
+        # an encoded dtml-tree state (cookie) or click path, as the tag
+        # itself writes them
+        import json
+        from TreeDisplay.TreeTag import compress, encode_str
+        return encode_str(compress(json.dumps(spec['state']))).decode(
+            'ascii')
     if t == 'decimal':
         import decimal
         return decimal.Decimal(spec['v'])
